@@ -1,6 +1,7 @@
 import Lean.Data.Json
 import Ahbicht.Model.CFV
 import Ahbicht.Model.Parse
+import Ahbicht.Model.Ahb
 /-!
 # line-protocol driver: one JSON request per line on stdin, one JSON answer per line on stdout
 -/
@@ -22,6 +23,10 @@ partial def nexprJson : NExpr → Json
   | .leaf a => atomJson a
   | .node o as => Json.arr (#[Json.str o.ruleName] ++ (as.map nexprJson).toArray)
 
+def partJson (p : Part) (cond : Json) : Json :=
+  Json.arr #[Json.str (if p.cond.isSome then "part" else "bare"),
+    Json.str (match p.kind with | .modal => "MODAL_MARK" | .prefix_ => "PREFIX_OPERATOR"), str p.ind, cond]
+
 def getStr (j : Json) (k : String) : Except String String := j.getObjValAs? String k
 
 def handle (j : Json) : Except String Json := do
@@ -33,6 +38,18 @@ def handle (j : Json) : Except String Json := do
     match parseCond s.toList with
     | some e => pure (Json.mkObj [("tree", exprJson e), ("flat", nexprJson e.flat)])
     | none => pure (Json.mkObj [("err", "SyntaxError")])
+  | "scanAhb" =>
+    let s ← getStr j "s"
+    match scanAhb s.toList with
+    | some ps => pure (Json.mkObj [("parts", Json.arr (ps.map fun p => partJson p (match p.cond with | some c => str c | none => Json.null)).toArray)])
+    | none => pure (Json.mkObj [("err", "SyntaxError")])
+  | "resolve" =>
+    let s ← getStr j "s"
+    match resolveParse s.toList with
+    | .ahb ps => pure (Json.mkObj [("shape", Json.arr #["ahb", Json.arr (ps.map fun pe =>
+        partJson pe.1 (match pe.2 with | some e => nexprJson e.flat | none => Json.null)).toArray])])
+    | .cond e => pure (Json.mkObj [("shape", Json.arr #["cond", nexprJson e.flat])])
+    | .syntaxError => pure (Json.mkObj [("err", "SyntaxError")])
   | _ => throw s!"unknown op {op}"
 
 partial def loop (h : IO.FS.Stream) (out : IO.FS.Stream) : IO Unit := do
